@@ -63,7 +63,7 @@ type silentSite struct {
 func collectSilent(p *Program, pkgs []string) []silentSite {
 	var out []silentSite
 	for _, rel := range pkgs {
-		for _, tf := range p.pkgFuncs(rel) {
+		for _, tf := range p.srcFuncs(rel) {
 			withAnon(tf, func(g *ssa.Function) {
 				if len(g.Blocks) == 0 {
 					return
@@ -93,6 +93,41 @@ func collectSilent(p *Program, pkgs []string) []silentSite {
 								errs = append(errs, ev{cl, ex})
 							}
 						}
+					}
+				})
+				// an error result nobody looks at (`f()` as a statement, `v, _ := f()`)
+				allInstrs(g, func(ins ssa.Instruction) {
+					cl, ok := ins.(*ssa.Call)
+					if !ok {
+						return
+					}
+					res := cl.Call.Signature().Results()
+					if res.Len() == 0 || !isErrorType(res.At(res.Len()-1).Type()) {
+						return
+					}
+					used := false
+					if refs := cl.Referrers(); refs != nil {
+						for _, r := range *refs {
+							if _, isDbg := r.(*ssa.DebugRef); isDbg {
+								continue
+							}
+							if res.Len() == 1 {
+								used = true
+								continue
+							}
+							if ex, ok := r.(*ssa.Extract); ok && ex.Index == res.Len()-1 {
+								if er := ex.Referrers(); er != nil && len(*er) > 0 {
+									used = true
+								}
+							}
+						}
+					}
+					if !used {
+						pos := cl.Pos()
+						if !pos.IsValid() {
+							pos = g.Pos()
+						}
+						out = append(out, silentSite{rel + "|unchecked " + calleeID(cl.Common()), FuncName(g), pos, "the error it returns is not looked at at all"})
 					}
 				})
 				for _, e := range errs {
